@@ -198,10 +198,8 @@ Theorem C13_prv_dup_channel_refused : forall pv row ty fl fl' pv', prv_register 
 Proof. exact prv_register_twice. Qed.
 Print Assumptions C13_prv_dup_channel_refused.
 
-(* B5 (partial): "registration never fails for well-formed inputs" is NOT proved for all inputs (it needs the freshness of
-   every (row,type) and type id through connect).  What is established: it succeeds on the concrete 2-thread, 2-CPU
-   nOS-V + marks trace below (by computation), on every accepted trace of the campaign (byte comparison with ovniemu),
-   and the registration-level refusals are reproduced by computation: *)
+(* B5: "registration never fails for well-formed inputs" is C13_registration_total / C13_connect_total (block at the end of
+   this file).  The registration-level refusals are reproduced by computation: *)
 (* two mark types with one type number: the second registration of (row 0, type 101) is refused *)
 Example C13_ex_refuse_dup_mark_type :
   connect pv_ex_sx pv_ex_phy pv_ex_en
@@ -620,3 +618,97 @@ Example C13_ex_pvw_prv :
   PW.bind_ (PG.Prv.prv_open_file tt 2 (Some 2%nat)) (PG.Prv.prv_register tt 1 9 tt 5 3) PR.env_ok pvw_st0 = Err PW.E_FAIL.
 Proof. vm_compute. repeat split. Qed.
 (* ==== end of block (unit pvw) ==== *)
+
+(* ==== static description from the built system; registration is total (SysStaticDefs, PvTotalProofs) ==== *)
+(* static_of_system sys rankf en ms lint (Emu/SysStaticDefs.v): the static description the emulator core and the writer work
+   on, computed from the system MetaDefs.build returns: threads in MetaDefs.thread_list order (loom index, pid, tid, app id,
+   rank rankf (loom, pid)), CPUs in MetaDefs.cpu_list order (by physical id, the virtual CPU of each loom last), channels of
+   the enabled models then one per mark type; sys_phy sys = the physical ids in the same order. *)
+From OV Require Emu.SysStaticDefs Proofs.SysStaticProofs Proofs.PvTotalProofs.
+
+(* it is the same system: the hypothesis of C13_row_names_documented_order holds by construction *)
+Theorem C13_static_same_system : forall sys rankf en ms lint,
+  same_system sys (SysStaticDefs.static_of_system sys rankf en ms lint) (SysStaticDefs.sys_phy sys).
+Proof. exact SysStaticProofs.static_same_system. Qed.
+Print Assumptions C13_static_same_system.
+
+(* loom_get_cpu on the k-th loom finds exactly the CPU indices the merge registered for that loom, and -1 (its virtual CPU) *)
+Theorem C13_find_cpu_of_system : forall sys rankf en ms lint k l ps cs idx, nth_error sys k = Some (l, ps, cs) ->
+  (find_cpu (SysStaticDefs.static_of_system sys rankf en ms lint) k idx <> None <-> (In idx (map fst cs) \/ idx = -1)).
+Proof. exact SysStaticProofs.find_cpu_of_system. Qed.
+Print Assumptions C13_find_cpu_of_system.
+
+(* the target of a remote affinity event: a thread of the caller's loom with that tid, of the caller's process when it has
+   one; none exactly when the loom has no thread with that tid (for any static description) *)
+Theorem C13_find_remote_spec : forall sx who tid me, nth_error (s_threads sx) who = Some me ->
+  match find_remote sx who tid with
+  | Some g => exists ti, nth_error (s_threads sx) g = Some ti /\ ti_tid ti = tid /\ ti_loom ti = ti_loom me /\
+                ((exists tj, In tj (s_threads sx) /\ ti_loom tj = ti_loom me /\ ti_pid tj = ti_pid me /\ ti_tid tj = tid) -> ti_pid ti = ti_pid me)
+  | None => forall ti, In ti (s_threads sx) -> ti_loom ti = ti_loom me -> ti_tid ti <> tid
+  end.
+Proof. exact SysStaticProofs.find_remote_spec. Qed.
+Print Assumptions C13_find_remote_spec.
+
+(* B5, now in full for the connect-time part: for EVERY system (in particular every one MetaDefs.build returns) with fewer than
+   2^31 CPUs and physical ids / loom indices below 2^63 (sys_small: what fits the C types), every subset en of the models of
+   the dumped tables (any list: models not in the tables are ignored), every rank assignment, and every list of mark types
+   with pairwise distinct type numbers in 0..99, titles and labels shorter than MAX_PCF_LABEL and pairwise distinct label
+   values per type (marks_fine: what MarkJsonDefs.emu_types_of_trees returns has distinct types in range and distinct label
+   values - C17; the length bound is the emulator's own limit), the registration of `emulate` succeeds: system_connect and the
+   connect of every enabled model never hit a duplicate PRV channel, a duplicate PCF type or value, an over-long label, a row
+   set twice or out of range.  Uses, by computation on the dumped tables: type numbers pairwise distinct per side across the
+   system channels and all models, all below 100, flags pass check_flags, labels short, label values distinct per type.
+   Not covered here: the finish step (task types: a gid collision is a legitimate refusal, see C13_ex_refuse_gid_collision). *)
+Theorem C13_registration_total : forall sys rankf en ms lint,
+  PvTotalProofs.sys_small sys -> PvTotalProofs.marks_fine ms ->
+  exists r, connect (SysStaticDefs.static_of_system sys rankf en ms lint) (SysStaticDefs.sys_phy sys) en ms = Ok r.
+Proof. exact PvTotalProofs.registration_total. Qed.
+Print Assumptions C13_registration_total.
+
+(* the same for any static description with as many physical ids as CPUs *)
+Theorem C13_connect_total : forall sx phy en ms, PvTotalProofs.cpu_ok sx phy -> PvTotalProofs.marks_fine ms ->
+  exists r, connect sx phy en ms = Ok r.
+Proof. exact (fun sx phy en ms => PvTotalProofs.connect_gen_total Gen.Pv_gen.pv_chans sx phy en ms PvTotalProofs.specs_are_fine). Qed.
+Print Assumptions C13_connect_total.
+(* ==== end of block (SysStaticDefs, PvTotalProofs) ==== *)
+
+(* ==== whole-emulator composition (EmuAllDefs) ==== *)
+(* EmuAllDefs.ovniemu_model: the composition of the models of this tree on a whole trace directory (see Properties_C12.v, same
+   block).  When it answers `Files out`:
+   C13_all_files_means_valid - every stream.json passed the loader's gates, every stream.obs is structurally valid to its end,
+     the clock-offset table was usable and the merge delivered all events without a backward jump, the merge built a system,
+     the model probe and the mark merge succeeded, and `emulate` of the static description OF THAT SYSTEM on the delivered,
+     decoded events returned these files;
+   C13_all_files_well_formed - hence the C13 guarantees at the level of bytes: each .prv is header(last - first event time,
+     number of threads / CPUs of the built system) followed by records on rows 1..n not later than the duration; thread.row /
+     cpu.row read back name exactly the threads / CPUs of the built system in MetaDefs order; every type a record can carry is
+     declared in the PCF of its file.  Side conditions left as hypotheses: duration below 10^20 (int64 clocks), labels of the
+     trace without newline (marks_ok, tl_clean).  That ovni is enabled is discharged from C14_enable_iff (the base model always is). *)
+From OV Require Emu.EmuAllDefs Proofs.EmuAllProofs.
+Theorem C13_all_files_means_valid : forall inp out, EmuAllDefs.ovniemu_model inp = EmuAllDefs.Files out ->
+  (forall s, In s (EmuAllDefs.sorted_streams inp) ->
+     LoaderMetaDefs.meta_rejected (LoaderMetaDefs.meta_check (EmuAllDefs.si_meta s) (EmuAllDefs.proc_has_app (EmuAllDefs.sorted_streams inp) s)) = false) /\
+  (forall s, In s (EmuAllDefs.sorted_streams inp) ->
+     exists recs, StreamDefs.run (EmuAllDefs.si_obs s) EmuAllDefs.junk0 false = StreamDefs.Run StreamDefs.VEnd recs) /\
+  (exists oevs enum revs, ClkoffDefs.run_emu_table (EmuAllDefs.in_clkoff inp) enum = ClkoffDefs.OOk (oevs, PlayerDefs.VOk) /\
+     EmuAllProofs.delivered inp out revs /\
+     Forall2 (fun (e : PlayerDefs.oev) r => EmuAllProofs.rev_time r = PlayerDefs.o_sclock e /\
+                exists s, nth_error (EmuAllDefs.sorted_streams inp) (PlayerDefs.o_id e) = Some s /\
+                          exists sys, EmuAllDefs.gindex_of sys s = Some (EmuAllProofs.rev_who r)) oevs revs) /\
+  EmuAllProofs.accepted_run inp out.
+Proof. exact EmuAllProofs.files_means_all_valid. Qed.
+Print Assumptions C13_all_files_means_valid.
+
+Theorem C13_all_files_well_formed : forall inp out, EmuAllDefs.ovniemu_model inp = EmuAllDefs.Files out ->
+  exists sys en ms evs sx, MetaDefs.build (map EmuAllDefs.si_smeta (EmuAllDefs.sorted_streams inp)) = MetaDefs.Ok sys /\
+    sx = SysStaticDefs.static_of_system sys (SysStaticDefs.rank_of_metas (map EmuAllDefs.si_smeta (EmuAllDefs.sorted_streams inp))) en ms (EmuAllDefs.in_lint inp) /\
+    (let d := last_time evs - first_time evs in 0 <= d < 10 ^ 20 ->
+       prv_shape (f_prv (o_th out)) d (length (MetaDefs.thread_list sys)) /\ prv_shape (f_prv (o_cpu out)) d (length (MetaDefs.cpu_list sys))) /\
+    (marks_ok ms -> (forall revs, tl_clean (tlabels_of sx revs)) ->
+       parse_prf (f_row (o_th out)) = Some (map sys_th_label (MetaDefs.thread_list sys)) /\
+       parse_prf (f_row (o_cpu out)) = Some (map sys_cpu_label (MetaDefs.cpu_list sys)) /\
+       (forall ty, In ty (th_types sx) -> text_declares (f_pcf (o_th out)) ty) /\
+       (forall ty, In ty (cpu_types sx) -> text_declares (f_pcf (o_cpu out)) ty)).
+Proof. exact EmuAllProofs.files_well_formed. Qed.
+Print Assumptions C13_all_files_well_formed.
+(* ==== end of block (EmuAllDefs) ==== *)
